@@ -1494,10 +1494,31 @@ def execute(program, ctx, mode):
                 if not above:
                     continue
                 b = above[op['sel'] % len(above)]
-                if (op['sel'] >> 3) % 2 and len(rb[r]) >= 1:
+                if h64(k, 'flaky-bases-variant') % 2 and len(rb[r]) >= 1:
                     # variant: the bases of r are assigned (same registries, reversed order when there are several) while b's
                     # counter is unreadable; whatever the registry says its bases are afterwards is what the model follows
                     nb = list(reversed(rb[r]))
+                    # ... or one more base is added, and it is the *new* base whose counter cannot be read
+                    extra_ = [g for g in range(nR) if g != r and alive[g] and g not in rb[r] and RD[g]['flav'] == 'V'
+                              and r not in reach(rb, g) and g not in reach(rb, r)]
+                    if extra_ and h64(k, 'flaky-new-base') % 3:
+                        g = extra_[op['v'] % len(extra_)]
+                        trial = dict(rb)
+                        trial[r] = rb[r] + [g]
+                        try:
+                            for x in range(nR):
+                                c3(x, trial)
+                            nb, b = rb[r] + [g], g
+                            ctx.probe('new-base-unreadable-while-it-is-attached')
+                        except ValueError:
+                            pass
+                    trial = dict(rb)
+                    trial[r] = nb
+                    try:
+                        for x in range(nR):
+                            c3(x, trial)
+                    except ValueError:
+                        continue            # the registry graph is kept C3-consistent
                     regs[b].__dict__['_unreadable'] = True
                     try:
                         try:
